@@ -1,6 +1,6 @@
 """C23 — Compile pipelines compose transforms and route results correctly (DESIGN §5.4).
 
-Part 1 (routing, E2): all pipelines of length <= 3 over 6 synthetic transforms (fan-out 0,1,2,3, order-sensitive
+Part 1 (routing, E2): all pipelines of length <= 3 over 7 synthetic transforms (fan-out 0,1,2,3 and three tape-dependent ones, order-sensitive
 injective post-processing) x batches of 0-3 distinguishable tapes; "execution" = identity labelling, so routing
 errors cannot cancel.  Oracle = hand-composition, one transform at a time, by recursion (no slices).
 
@@ -17,7 +17,7 @@ LEVEL = "model_checking"
 TECHNIQUE = "explicit-state BFS over pipeline edit histories vs list+marker model; exhaustive pipeline-word enumeration for result routing"
 LEVEL_TEXT = ("Every edit history up to depth 3 (thorough 4) over append/insert/pop/remove/+/+=/radd/*/slice/markers with all in-range, "
               "negative and out-of-range indices is replayed on the real CompilePipeline and compared state-by-state with a list+marker "
-              "model; every pipeline word of length <=3 over 6 fan-out transforms x batches of 0-3 tapes is compared with hand composition.")
+              "model; every pipeline word of length <=3 over 7 fan-out transforms (constant and tape-dependent fan-out) x batches of 0-3 tapes is compared with hand composition.")
 LEVEL_NOTE = ("Reference = Python list of transform names + marker map; ambiguous marker placement (insert exactly at a marker, slice "
               "boundary) accepts either side. Classical cotransforms / QNode application of pipelines are not explored.")
 DESIGN_REF = "5.4 C23"
@@ -26,7 +26,8 @@ RULE = ("routing: all words over the synthetic transform alphabet x batch sizes;
         "non-trivial = fan-out != 1 somewhere / history touches a marker")
 
 # --------------------------------------------------------------------------------------------- part 1: routing
-FAN = {"k0": 0, "k1": 1, "k2": 2, "k3": 3, "j2": 2, "d": None}  # d: drops odd-tagged tapes (fan-out 0 or 1)
+FAN = {"k0": 0, "k1": 1, "k2": 2, "k3": 3, "d": None, "v": None, "u": None}
+# tape-dependent fan-out: d drops odd-tagged tapes (0/1); v: 2 copies of even-tagged tapes, 0 of odd ones; u: tag mod 3 copies
 _T = {}
 
 
@@ -40,6 +41,10 @@ def _transforms():
             tag = float(tape.operations[-1].data[0]) if tape.operations else 0.0
             if name == "d":
                 k = 0 if int(round(tag)) % 2 else 1
+            elif name == "v":
+                k = 0 if int(round(tag)) % 2 else 2
+            elif name == "u":
+                k = int(round(tag)) % 3
             else:
                 k = FAN[name]
             base = (sum(ord(c) for c in name) % 17 + 1)
@@ -99,7 +104,7 @@ def check_route(spec):
         g2 = p2(tuple(_execute(t) for t in o2))
         if tuple(g2) != exp:
             return bad("routing:single-tape", g2, exp)
-    nontriv = any(FAN[n] != 1 for n in names) and nb > 0
+    nontriv = any(FAN[n] != 1 for n in names) and nb > 0  # FAN[n] is None for tape-dependent fan-out
     return ok(outcome=[len(out_tapes), len(names), nb], nontrivial=nontriv)
 
 
